@@ -231,6 +231,12 @@ func scalarGuarded(c *Ctx, f *FuncInfo, n ast.Node, v ast.Expr) (bool, string) {
 			}
 			if call, ok := ast.Unparen(ft.Cond).(*ast.CallExpr); ok && FullName(Callee(info, call)) == P("util")+".IsValueScalar" && len(call.Args) == 1 {
 				a := ast.Unparen(call.Args[0])
+				// a hoisted local (srcElem := srcField.Elem()) stands for its definition.
+				if id, ok := a.(*ast.Ident); ok {
+					if d := oneToOneDef(f, info.ObjectOf(id)); d != nil {
+						a = ast.Unparen(d)
+					}
+				}
 				if sameExpr(info, a, v) {
 					return true, "util.IsValueScalar(value)"
 				}
